@@ -515,7 +515,9 @@ class MolGrid(Grid):
         natoms = len(atcoords)
         # List of int is created, so that indexing is possible in the for-loop.
         if isinstance(d_sectors, (int, np.integer)):
-            d_sectors = [d_sectors] * natoms
+            d_sectors = [[d_sectors] * (len(rs) + 1) for rs in r_sectors]
+        if isinstance(s_sectors, (int, np.integer)):
+            s_sectors = [[s_sectors] * (len(rs) + 1) for rs in r_sectors]
         # If s_sectors given d_sectors is set to [None] for all atoms.
         if s_sectors is not None:
             d_sectors = [None] * natoms
